@@ -18,3 +18,23 @@ def load(module, fn):
 for fn in ('rule_reset', 'rule_fresh', 'rule_ordered_read', 'rule_sortkey'):
     reg('C05', 'replace_cache', fn)
 reg('C05', 'witnesses', 'rule_w_mut')
+
+# ---- C10
+reg('C10', 'caches', 'rule_key')
+reg('C10', 'caches', 'rule_writeonce')
+reg('C10', 'caches', 'rule_memo')
+# ---- C14
+reg('C14', 'caches', 'rule_memo')
+reg('C14', 'eqhash', 'rule_eqcover')
+reg('C14', 'eqhash', 'rule_hash_in_eq')
+reg('C14', 'eqhash', 'rule_clonecover')
+# ---- C18
+reg('C18', 'caches', 'rule_writeonce')
+reg('C18', 'replace_cache', 'rule_publish_order')
+reg('C18', 'replace_cache', 'rule_fresh')
+reg('C18', 'witnesses', 'rule_w_sendsync')
+reg('C18', 'witnesses', 'rule_w_mut')
+# ---- C20
+reg('C20', 'eqhash', 'rule_hashcover')
+reg('C20', 'eqhash', 'rule_hashdet')
+reg('C20', 'caches', 'rule_memo')
